@@ -150,11 +150,11 @@ pub fn run(tier: &str) -> i32 {
     let g = Gen::standard(true);
     let b = bfs(&g, 3, 60_000);
     let all: Vec<File> = b.levels.iter().flatten().cloned().collect();
-    let step = (all.len() / if thorough { 1200 } else { 220 }).max(1);
+    let step = (all.len() / if thorough { 6000 } else { 220 }).max(1);
     let mut progs: Vec<File> = all.iter().step_by(step).cloned().collect();
     // same rule name defined two and three times
     let snf = same_name_family(false);
-    progs.extend(snf.iter().step_by(if thorough { 7 } else { 37 }).cloned());
+    progs.extend(snf.iter().step_by(if thorough { 2 } else { 37 }).cloned());
     let lp = leaf_pool();
     let mut w = rule("s", vec![vec![lp[1].clone()]]);
     w.when = Some(vec![vec![un(vec![key("b")], UnOp::Exists, false)]]);
